@@ -806,10 +806,12 @@ class SamplingMethod(DirectMethod):
         for offset in offsets.keys():
             if k==-1 and offset>0:
                 raise IndexError()
-            if k+offset<0:
+            # The final node (k==-1) is node N: a non-positive offset stays inside the horizon
+            k_node = self.N if k==-1 else k
+            if k_node+offset<0:
                 raise IndexError()
             subst_from.append(vvcat(symbols[offset]))
-            subst_to.append(self._eval_at_control(stage, vvcat(offsets[offset]), k+offset))
+            subst_to.append(self._eval_at_control(stage, vvcat(offsets[offset]), k_node+offset))
             #print(expr, subst_from, subst_to)
 
 
